@@ -17,6 +17,7 @@ use std::sync::Arc;
 
 use parking_lot::RwLock;
 
+use crate::desc::{is_valid_label_name, is_valid_metric_name};
 use crate::errors::{Error, Result};
 use crate::metrics::Collector;
 use crate::proto;
@@ -52,6 +53,22 @@ impl RegistryCore {
         let mut collector_id: u64 = 0;
 
         for desc in c.desc() {
+            // The registry's common labels are appended to every sample, so
+            // they must not repeat one of the metric's own label names.
+            if let Some(ref labels) = self.labels {
+                let clash = desc
+                    .const_label_pairs
+                    .iter()
+                    .any(|pair| labels.contains_key(pair.name()))
+                    || desc.variable_labels.iter().any(|name| labels.contains_key(name));
+                if clash {
+                    return Err(Error::Msg(format!(
+                        "a label of {:?} is also a common label of the registry",
+                        desc.fq_name
+                    )));
+                }
+            }
+
             // Is the desc_id unique?
             // (In other words: Is the fqName + constLabel combination unique?)
             if self.desc_ids.contains(&desc.id) {
@@ -260,6 +277,23 @@ impl Registry {
         if let Some(ref namespace) = prefix {
             if namespace.is_empty() {
                 return Err(Error::Msg("empty prefix namespace".to_string()));
+            }
+            // The prefix becomes the start of every metric name.
+            if !is_valid_metric_name(namespace) {
+                return Err(Error::Msg(format!(
+                    "'{}' is not a valid prefix namespace",
+                    namespace
+                )));
+            }
+        }
+        if let Some(ref labels) = labels {
+            for name in labels.keys() {
+                if !is_valid_label_name(name) {
+                    return Err(Error::Msg(format!(
+                        "'{}' is not a valid label name",
+                        name
+                    )));
+                }
             }
         }
 
